@@ -8,6 +8,7 @@ import (
 	"flag"
 	"fmt"
 	"os"
+	"os/exec"
 	"path/filepath"
 	"sort"
 	"strings"
@@ -81,9 +82,9 @@ func cmdCheck(args []string) int {
 	t0 := time.Now()
 	seed := 0
 	fmt.Sscanf(os.Getenv("VERIF_SEED"), "%d", &seed)
-	timeout := 10 * time.Second
+	timeout := 30 * time.Second
 	if *tier == "thorough" {
-		timeout = 60 * time.Second
+		timeout = 120 * time.Second
 	}
 	e, err := LoadEngine(*repo)
 	if err != nil {
@@ -219,6 +220,39 @@ func cmdCheck(args []string) int {
 		})
 	}
 	dischargeAll(fns, 16)
+	// thorough tier: a second solver must not contradict a proof, and the must-fail corpus is replayed
+	contradictions := 0
+	var corpus []map[string]any
+	if *tier == "thorough" {
+		var xs []func()
+		for _, j := range jobs {
+			j := j
+			if j.Struct || j.Script == nil || j.O.Status != "proved" {
+				continue
+			}
+			other := "z3"
+			if j.O.Solver == "z3" {
+				other = "z3-new"
+			}
+			xs = append(xs, func() {
+				r := runSolver(other, j.Script(), 20*time.Second, false)
+				if r.Status == "sat" {
+					j.O.Status = "contradiction"
+					j.O.Model = "proved by " + j.O.Solver + " but " + other + " answers sat"
+				}
+			})
+		}
+		dischargeAll(xs, 16)
+		for _, j := range jobs {
+			if j.O.Status == "contradiction" {
+				contradictions++
+				fmt.Printf("ENGINE-ERROR solvers disagree on %s: %s\n", j.O.Name, j.O.Model)
+			}
+		}
+		if os.Getenv("GOVC_NO_CORPUS") == "" {
+			corpus = mustFailCorpus(*verif, *repo, P)
+		}
+	}
 	// verdict
 	known := loadKnownFindings(filepath.Join(*verif, "known_findings.txt"))
 	total, proved, structural := 0, 0, 0
@@ -282,6 +316,8 @@ func cmdCheck(args []string) int {
 		"inactive_clauses":           len(e.Specs.Inactive),
 		"unclaimed_safety_obligations": unclaimed,
 		"trusted_function_contracts":  trustedFns,
+		"solver_contradictions":       contradictions,
+		"must_fail_corpus":            corpus,
 		"checker_cmd":               fmt.Sprintf("/verif/bin/govc check --property %s --tier %s  (VC generator over go/ssa of /repo working tree, -tags verif; solvers z3-new 5.1.0, z3 4.8.12, cvc5 1.0 raced)", P, *tier),
 		"trusted_base":              trustedBase(e, keys),
 		"functions_under_contract":  fnsUnder,
@@ -434,4 +470,69 @@ func excepted(spec *FuncSpec, o *Obligation) bool {
 		}
 	}
 	return false
+}
+
+// mustFailCorpus: apply every seeded property-breaking change of this property to a scratch worktree
+// (outside /repo and /verif, removed immediately) and record which obligations of the check fail there.
+func mustFailCorpus(verif, repo, P string) []map[string]any {
+	seeds, _ := filepath.Glob(filepath.Join(verif, "seeded", P+"-m*"))
+	sort.Strings(seeds)
+	var out []map[string]any
+	exe, _ := os.Executable()
+	for _, s := range seeds {
+		rec := map[string]any{"seed": filepath.Base(s)}
+		patch := filepath.Join(s, "patch_on_fixed_tree.diff")
+		if _, err := os.Stat(patch); err != nil {
+			patch = filepath.Join(s, "patch.diff")
+		}
+		wt, err := os.MkdirTemp("", "govc-corpus-wt")
+		if err != nil {
+			continue
+		}
+		os.Remove(wt)
+		vd, _ := os.MkdirTemp("", "govc-corpus-verif")
+		cleanup := func() {
+			exec.Command("git", "-C", repo, "worktree", "remove", "--force", wt).Run()
+			os.RemoveAll(wt)
+			os.RemoveAll(vd)
+		}
+		if err := exec.Command("git", "-C", repo, "worktree", "add", "-q", "--detach", wt, "HEAD").Run(); err != nil {
+			rec["applied"] = false
+			rec["reason"] = "cannot create scratch worktree"
+			out = append(out, rec)
+			cleanup()
+			continue
+		}
+		// the scratch tree must carry the working tree's contract files (they may be uncommitted)
+		if err := exec.Command("git", "-C", wt, "apply", patch).Run(); err != nil {
+			rec["applied"] = false
+			rec["reason"] = "patch does not apply to the current tree"
+			out = append(out, rec)
+			cleanup()
+			continue
+		}
+		if b, err := os.ReadFile(filepath.Join(verif, "known_findings.txt")); err == nil {
+			os.WriteFile(filepath.Join(vd, "known_findings.txt"), b, 0o644)
+		}
+		cmd := exec.Command(exe, "check", "--property", P, "--tier", "quick", "--repo", wt, "--verif", vd)
+		cmd.Env = append(os.Environ(), "GOVC_NO_CORPUS=1")
+		b, _ := cmd.CombinedOutput()
+		var obls []string
+		nv := 0
+		for _, ln := range strings.Split(string(b), "\n") {
+			if strings.HasPrefix(ln, "VIOLATION") {
+				nv++
+			}
+			if strings.HasPrefix(ln, "  obligation ") && len(obls) < 6 {
+				obls = append(obls, strings.Fields(ln)[1])
+			}
+		}
+		rec["applied"] = true
+		rec["caught"] = nv > 0
+		rec["violations"] = nv
+		rec["failing_obligations"] = obls
+		out = append(out, rec)
+		cleanup()
+	}
+	return out
 }
